@@ -93,6 +93,26 @@ const topZone = uint64(1) << 20
 
 func isTop(id uint64) bool { return id >= math.MaxUint64-topZone }
 
+// pick draws an element of xs with (nearly) equal probability. rapid's integer
+// generators and SampledFrom favour small values / early elements heavily (a
+// third of all draws hit the first element of a 24-element list), which is
+// wanted for shrinking but starves the page-boundary counts; single bits are
+// drawn uniformly, and all-zero still shrinks to the first element.
+func pick[T any](t *rapid.T, label string, xs []T) T {
+	bits := 3
+	for n := len(xs) - 1; n > 0; n >>= 1 {
+		bits++
+	}
+	v := 0
+	for i := 0; i < bits; i++ {
+		v <<= 1
+		if rapid.Bool().Draw(t, label) {
+			v |= 1
+		}
+	}
+	return xs[v%len(xs)]
+}
+
 // genIDs draws an id pool spec for at most pool ids. small: explicit random ids allowed.
 func genIDs(t *rapid.T, pool int, small bool) (IDSpec, bool) {
 	top := uint64(math.MaxUint64)
@@ -105,7 +125,7 @@ func genIDs(t *rapid.T, pool int, small bool) (IDSpec, bool) {
 	if small {
 		modes = append(modes, "random", "random")
 	}
-	s := IDSpec{Mode: rapid.SampledFrom(modes).Draw(t, "idMode")}
+	s := IDSpec{Mode: pick(t, "idMode", modes)}
 	switch s.Mode {
 	case "dense":
 		s.Base = rapid.SampledFrom([]uint64{1, 1, 2, 100, 1000, 1<<32 - 50, 1<<63 - 50, 9999999999999999950, 99999999999999950}).Draw(t, "base")
@@ -173,7 +193,7 @@ func genStoreCase(t *rapid.T) SCase {
 	if vkit.Thorough() && rapid.IntRange(0, 39).Draw(t, "etcd") == 0 {
 		c.Backend = "etcd"
 	}
-	c.N = rapid.SampledFrom(storeCounts).Draw(t, "n")
+	c.N = pick(t, "n", storeCounts)
 	if c.Backend == "etcd" {
 		c.N = rapid.SampledFrom([]int{0, 1, 99, 100, 101, 199, 200, 201}).Draw(t, "nEtcd")
 	}
@@ -181,7 +201,7 @@ func genStoreCase(t *rapid.T) SCase {
 	news := 0
 	for i := 0; i < nOps; i++ {
 		var op SOp
-		op.K = rapid.SampledFrom([]string{"new", "new", "new", "over", "over", "over", "del", "del", "del", "weight", "weight", "weight", "check"}).Draw(t, "kind")
+		op.K = pick(t, "kind", []string{"new", "new", "new", "over", "over", "over", "del", "del", "del", "weight", "weight", "weight", "check"})
 		op.Pick = rapid.IntRange(0, 1000).Draw(t, "pick")
 		switch op.K {
 		case "new", "over":
@@ -433,7 +453,7 @@ type RCase struct {
 
 var (
 	regionCounts = []int{0, 1, 2, 50, 99, 100, 101, 199, 200, 201, 350}
-	budgetCounts = []int{0, 1, 99, 100, 101, 155, 156, 157, 199, 200, 201, 311, 312, 313, 350, 467, 468, 469, 624, 625, 626, 700}
+	budgetCounts = []int{0, 1, 99, 100, 101, 155, 156, 157, 199, 200, 201, 311, 312, 313, 313, 350, 350, 467, 468, 469, 469, 624, 625, 626, 626, 700, 700}
 	bulkCounts   = []int{9999, 10000, 10001, 10150, 5000, 5001, 12500}
 )
 
@@ -456,7 +476,7 @@ func genROps(t *rapid.T, c *RCase, maxOps int) int {
 	nOps := rapid.IntRange(0, maxOps).Draw(t, "nOps")
 	news := 0
 	for i := 0; i < nOps; i++ {
-		op := ROp{K: rapid.SampledFrom(kinds).Draw(t, "kind"), Pick: rapid.IntRange(0, 1000).Draw(t, "pick")}
+		op := ROp{K: pick(t, "kind", kinds), Pick: rapid.IntRange(0, 1000).Draw(t, "pick")}
 		switch op.K {
 		case "new", "over", "resave":
 			op.B = genRBody(t, c.Slots)
@@ -483,19 +503,19 @@ func genBig(t *rapid.T, c *RCase) {
 func genRegionCase(t *rapid.T) RCase {
 	var c RCase
 	backs := []string{"mem", "mem", "budget", "budget", "budget", "leveldb", "leveldb", "leveldb", "leveldb"}
-	c.Backend = rapid.SampledFrom(backs).Draw(t, "backend")
+	c.Backend = pick(t, "backend", backs)
 	if vkit.Thorough() && rapid.IntRange(0, 49).Draw(t, "etcd") == 0 {
 		c.Backend = "etcd"
 	}
 	switch c.Backend {
 	case "budget":
-		c.N = rapid.SampledFrom(budgetCounts).Draw(t, "n")
-		c.BudgetW = rapid.SampledFrom([]int{156, 156, 312, 625}).Draw(t, "budgetW")
+		c.N = pick(t, "n", budgetCounts)
+		c.BudgetW = pick(t, "budgetW", []int{156, 156, 312, 625})
 		c.Slack = rapid.SampledFrom([]int{0, 0, 1, 500}).Draw(t, "slack")
 	case "etcd":
 		c.N = rapid.SampledFrom([]int{0, 1, 50, 101, 201}).Draw(t, "n")
 	default:
-		c.N = rapid.SampledFrom(regionCounts).Draw(t, "n")
+		c.N = pick(t, "n", regionCounts)
 	}
 	c.Slots = c.N + rapid.IntRange(0, 3).Draw(t, "extraSlots")
 	if c.Slots < 4 {
@@ -505,14 +525,33 @@ func genRegionCase(t *rapid.T) RCase {
 	genBig(t, &c)
 	news := genROps(t, &c, 20)
 	c.IDs, c.ExclMax = genIDs(t, c.N+news, true)
+	if c.Backend == "budget" && c.N >= 200 && pick(t, "lateBig", []bool{true, true, true, false}) {
+		// a heavy item late in the id order: the first pages fit a larger page size, a later one does not,
+		// so the page size is halved after part of the regions has been processed
+		lo := 2*c.BudgetW + 1
+		if lo > c.N-1 {
+			lo = c.N - 1
+		}
+		if lo < c.N/2 {
+			lo = c.N / 2
+		}
+		slot := rapid.IntRange(lo, c.N).Draw(t, "lateSlot")
+		if c.IDs.Mode == "top" {
+			slot = c.N - slot // ids descend with the pool index: late in id order = early slots
+			if slot < 1 {
+				slot = 1
+			}
+		}
+		c.Big = append(c.Big, BigSlot{Slot: slot, Pad: pick(t, "latePad", []int{20000, 40000})})
+	}
 	c.Prune = rapid.IntRange(0, 3).Draw(t, "prune") != 0
 	return c
 }
 
 func genBulkCase(t *rapid.T) RCase {
 	var c RCase
-	c.Backend = rapid.SampledFrom([]string{"mem", "mem", "mem", "budget", "leveldb"}).Draw(t, "backend")
-	c.N = rapid.SampledFrom(bulkCounts).Draw(t, "n")
+	c.Backend = pick(t, "backend", []string{"mem", "mem", "mem", "budget", "leveldb"})
+	c.N = pick(t, "n", bulkCounts)
 	if c.Backend == "budget" {
 		c.BudgetW = rapid.SampledFrom([]int{1250, 2500, 5000}).Draw(t, "budgetW")
 		c.Slack = rapid.SampledFrom([]int{0, 1}).Draw(t, "slack")
@@ -742,7 +781,7 @@ func runRegionCase(c RCase) (info vkit.Info, err error) {
 
 	var liveIdx, deadIdx []int // pool indices; liveIdx ascending by time of (re)insertion, deadIdx = deleted/lost
 	nextPool, seq := 0, 0
-	multiPage, halved, hasTop, leftoverSeen := false, false, false, false
+	multiPage, halved, halvedLate, hasTop, leftoverSeen := false, false, false, false, false
 	pruned := 0
 
 	removeIdx := func(s []int, k int) []int { return append(s[:k:k], s[k+1:]...) }
@@ -826,6 +865,12 @@ func runRegionCase(c RCase) (info vkit.Info, err error) {
 				multiPage = multiPage || pagesAfterHalving(lims) >= 2
 				if lims[len(lims)-1] < 10000 {
 					halved = true
+				}
+				for i := 2; i < len(lims); i++ {
+					// two calls with the same limit: the first one succeeded; then a smaller limit: halved after progress
+					if lims[i] < lims[i-1] && lims[i-1] == lims[i-2] {
+						halvedLate = true
+					}
 				}
 			}
 		} else if len(got) >= 10000 {
@@ -953,7 +998,8 @@ func runRegionCase(c RCase) (info vkit.Info, err error) {
 			if len(liveIdx) == 0 {
 				continue
 			}
-			k := op.Pick % len(liveIdx)
+			// counted from the most recent save: small picks hit items whose save is still unflushed
+			k := len(liveIdx) - 1 - op.Pick%len(liveIdx)
 			id, _ := c.IDs.id(liveIdx[k])
 			if e := st.DeleteRegion(m.live[id]); e != nil {
 				return info, fmt.Errorf("op %d: %v", i, e)
@@ -1132,6 +1178,7 @@ func runRegionCase(c RCase) (info vkit.Info, err error) {
 
 	info.ClassIf(multiPage, "multi-page")
 	info.ClassIf(halved, "page-size-halved")
+	info.ClassIf(halvedLate, "page-size-halved-after-progress")
 	info.ClassIf(hasTop, "top-of-range-ids")
 	info.ClassIf(pruned > 0, "pruned>=1")
 	info.ClassIf(leftoverSeen, "leftover-resurrected")
